@@ -1,6 +1,6 @@
 (* C08 - Service tasks are stopped at teardown before anything they may depend on. *)
 From Coq Require Import List Bool Arith.
-From Asphalt Require Import Conc.Service Conc.ServiceProofs Conc.ServiceFuel Td.Lifecycle Gen.Gen_lifecycle.
+From Asphalt Require Import Conc.Service Conc.ServiceProofs Conc.ServiceFuel Td.Lifecycle Gen.Gen_lifecycle Gen.Gen_service.
 Import ListNotations.
 
 (* For every set of service tasks (any teardown action and behaviour), every program of
@@ -63,3 +63,18 @@ Theorem C08_group_left_after_callbacks :
   unwinding false = [E_teardown_callbacks; E_task_group; E_coalesce; E_reset_current].
 Proof. exact unwinding_root. Qed.
 Print Assumptions C08_group_left_after_callbacks.
+
+(* what the translator read from Context.start_service_task / run_background_task on this run, and the
+   model's finalizer is computed from: the task is started through TaskGroup.start() in a context whose
+   parent is the context whose method was called, the finalizer is registered on that context after the
+   start has returned; it cancels for "cancel", calls a callable once (awaiting an awaitable result) and
+   falls back on cancellation when that raises anything, and in every case waits for the task; the task's
+   finished event is set in a finally clause after its own context has been left *)
+Theorem C08_source_shape :
+  svc_owner_is_self = true /\ svc_finalizer_on_self = true /\ svc_finalizer_registered_after_start = true /\
+  svc_started_through_start = true /\ svc_cancel_action_cancels = true /\ svc_callable_called_once = true /\
+  svc_awaits_awaitable = true /\ svc_fallback_cancel_when_action_raises = true /\
+  svc_action_catches_base_exception = true /\ svc_waits_for_task = true /\
+  bg_scope_encloses_context = true /\ bg_finished_in_finally_after_context = true.
+Proof. exact service_source_shape. Qed.
+Print Assumptions C08_source_shape.
